@@ -16,7 +16,7 @@ ASSUMPTIONS = ["decimal hour/minute/second forms (\"%0.6f\" float formatting) an
                "%0Nd of an int in 0..10^N-1 prints its N-digit spelling (CPython axiom); blindness lemma and split lemma of pyvc/textlex.py (prose, hypotheses machine-checked)",
                "the shared dumper map TIMEPOINT_DUMPER_MAP holds the dumpers the real module built at import (read from the imported module); it is a cache (C15 obligations)"]
 LEVEL_TEXT = "Whole-second default-format round trip: proof (real dump and parse executed symbolically); decimal forms and custom formats: bounded grid. Hence other."
-LEVEL_NOTE = "see DESIGN section 5/C08"
+LEVEL_NOTE = "see DESIGN.md A.4 (as built) and section 5/C08 (plan)"
 
 
 def custom(tier, seed, repo):
